@@ -565,10 +565,9 @@ func (e *SpecEnv) evalCall(x *ast.CallExpr) Term {
 	case "forall", "exists":
 		name := arg(0).(*ast.Ident).Name
 		lo, hi := e.eval(arg(1)), e.eval(arg(2))
-		e.depth++
-		bv := fmt.Sprintf("%s!q%d", sanitize(name), e.depth)
+		vc.bvN++
+		bv := fmt.Sprintf("%s!q%d", sanitize(name), vc.bvN)
 		body := e.with(map[string]Term{name: intTerm(bv)}).evalBool(arg(3))
-		e.depth--
 		rng := fmt.Sprintf("(and (<= %s %s) (< %s %s))", lo.S, bv, bv, hi.S)
 		if id.Name == "forall" {
 			return boolTerm(fmt.Sprintf("(forall ((%s Int)) (=> %s %s))", bv, rng, body))
@@ -577,8 +576,8 @@ func (e *SpecEnv) evalCall(x *ast.CallExpr) Term {
 	case "all", "any":
 		name := arg(0).(*ast.Ident).Name
 		t, g := vc.resolveType(arg(1), e.pkg)
-		e.depth++
-		bv := fmt.Sprintf("%s!q%d", sanitize(name), e.depth)
+		vc.bvN++
+		bv := fmt.Sprintf("%s!q%d", sanitize(name), vc.bvN)
 		var bt Term
 		if g != nil {
 			bt = vc.ghostArrayTerm(bv, g)
@@ -586,7 +585,6 @@ func (e *SpecEnv) evalCall(x *ast.CallExpr) Term {
 			bt = vc.mk(bv, t)
 		}
 		body := e.with(map[string]Term{name: bt}).evalBool(arg(2))
-		e.depth--
 		guard := "true"
 		if g == nil {
 			// quantified values range over well-formed values of the type (refs: allocated objects incl. nil)
@@ -924,13 +922,8 @@ func (vc *VC) strHasPrefix(s, p string) string {
 // sliceOf: x[lo:hi] for slices and strings (fresh symbol with defining facts).
 func (vc *VC) sliceOf(st *State, x Term, lo, hi Term) Term {
 	if isString(x.T) {
-		r := vc.mk("(s.sub "+x.S+" "+lo.S+" "+hi.S+")", x.T)
-		st.assume(fmt.Sprintf("(= (s.len %s) (- %s %s))", r.S, hi.S, lo.S))
-		st.assume(fmt.Sprintf("(forall ((i!u Int)) (! (=> (and (<= 0 i!u) (< i!u (- %s %s))) (= (s.at %s i!u) (s.at %s (+ i!u %s)))) :pattern ((s.at %s i!u))))", hi.S, lo.S, r.S, x.S, lo.S, r.S))
-		if lo.S == "0" {
-			st.assume(imp(eq(hi.S, "(s.len "+x.S+")"), eq(r.S, x.S)))
-		}
-		return r
+		// substring: defined by the global s.sub axioms (no state facts: usable under binders)
+		return vc.mk("(s.sub "+x.S+" "+lo.S+" "+hi.S+")", x.T)
 	}
 	if _, ok := under(x.T).(*types.Slice); ok {
 		es := vc.u.SortOf(elemType(x.T))
